@@ -35,7 +35,7 @@ func init() {
 		Word32: true,
 		Level:  "exploration",
 		Rule: "E1 bounded-exhaustive enumeration, per width n in {1,2,4,8}: (split) every string of length ≤2 over all 256 byte values and of length ≤L over {00,01,7f,80,ff,a5,5a,'a'}: FromStr length and every word, Get at every index, ToStr∘FromStr; " +
-			"(pack) ToStr on every list of in-range words up to a width-dependent length (every partial-last-byte shape), and on one patterned list of EVERY length up to 2200 / 1100 / 600 / 300 words (widths 1 / 2 / 4 / 8) and of every threshold length up to 2^16 words with every partial-last-byte shape next to it; (diff) FirstDiff on every ordered pair of strings of length ≤D over 6 bytes and of length ≤3 over {c3,a9,a8,'a'} and {e6,97,a5,a6} (well-formed 2- and 3-byte UTF-8 sequences differing in a continuation byte) × every from in [0, words+2] × every end in [-1, words+2]; (diff, far windows) the same pairs with from and/or end far beyond both strings: 2^31, 2^32, 2^60, 2^61, 2^62, 3·2^61 (each ±1), MaxInt-1, MaxInt - every from in [0, words+2] ∪ far × every far end, and every far from × every end in [-1, words+2]; (diff, long) FirstDiff on every ordered pair of 48 strings of 8..19 bytes (4 stem variants × 3 tails) and on single-byte flips of bases of EVERY length 1..40 at every byte position × every from × 7 ends; (big) strings of EVERY length 2..600 bytes and of every threshold length up to 2^16 (thorough 2^20) bytes: FromStr/ToStr/Get and FirstDiff against copies with one flipped byte; (lists) ToStrs on every list of ≤3 word lists over every partial-last-byte shape (lengths 0..2·(8/n)+1: elements that are not whole bytes), and on every list of ≤3 PREFIXES OF ONE word list (elements sharing memory: the same list twice, a list and its prefix); FromStrs/ToStrs element-wise (and the FromStrs elements once more after appending a byte to each: results must not alias each other) on every list of ≤3 strings over 4 strings, and on generated lists of every threshold size (round numbers ±1) from 1000 to 70000 strings. " +
+			"(split, zero runs) FromStr / Get / ToStr(FromStr) on strings of 9..33 bytes in which every run [i, j) of bytes is 0x00; (pack) ToStr on every list of in-range words up to a width-dependent length (every partial-last-byte shape), and on one patterned list of EVERY length up to 2200 / 1100 / 600 / 300 words (widths 1 / 2 / 4 / 8) and of every threshold length up to 2^16 words with every partial-last-byte shape next to it; (diff) FirstDiff on every ordered pair of strings of length ≤D over 6 bytes and of length ≤3 over {c3,a9,a8,'a'} and {e6,97,a5,a6} (well-formed 2- and 3-byte UTF-8 sequences differing in a continuation byte) × every from in [0, words+2] × every end in [-1, words+2]; (diff, far windows) the same pairs with from and/or end far beyond both strings: 2^31, 2^32, 2^60, 2^61, 2^62, 3·2^61 (each ±1), MaxInt-1, MaxInt - every from in [0, words+2] ∪ far × every far end, and every far from × every end in [-1, words+2]; (diff, long) FirstDiff on every ordered pair of 48 strings of 8..19 bytes (4 stem variants × 3 tails) and on single-byte flips of bases of EVERY length 1..40 at every byte position × every from × 7 ends; (big) strings of EVERY length 2..600 bytes and of every threshold length up to 2^16 (thorough 2^20) bytes: FromStr/ToStr/Get and FirstDiff against copies with one flipped byte; (lists) ToStrs on every list of ≤3 word lists over every partial-last-byte shape (lengths 0..2·(8/n)+1: elements that are not whole bytes), and on every list of ≤3 PREFIXES OF ONE word list (elements sharing memory: the same list twice, a list and its prefix); FromStrs/ToStrs element-wise (and the FromStrs elements once more after appending a byte to each: results must not alias each other) on every list of ≤3 strings over 4 strings, and on generated lists of every threshold size (round numbers ±1) from 1000 to 70000 strings. " +
 			"Oracle: the string's '0'/'1' rendering cut into n-bit groups. A case is one call; non-trivial when the string/list is non-empty.",
 		Assumptions: []string{"from < 0 and end < -1 are outside the statement and not called; long strings over the full byte alphabet are not enumerated"},
 		Run:         c08Run,
@@ -247,6 +247,42 @@ func c08Run(c *mc.Ctx) {
 			c.Count(evals, nontriv)
 			c.Add("pack_cases", evals)
 		})
+	}
+	// (split, zero runs) strings of 9, 16, 17, 24, 25 and 33 bytes in which EVERY run [i, j) of bytes is 0x00
+	// and the rest follows a pattern with bytes of every class: zero bytes filling whole aligned 8-byte blocks,
+	// straddling them, leading, trailing and in the middle (code that handles 8 bytes at a time is tempted to
+	// skip what is "already zero")
+	{
+		type zr struct{ l, i, j int }
+		var zs []zr
+		for _, l := range []int{9, 16, 17, 24, 25, 33} {
+			for i := 0; i < l; i++ {
+				for j := i + 1; j <= l; j++ {
+					zs = append(zs, zr{l, i, j})
+				}
+			}
+		}
+		for _, z := range zs {
+			for _, n := range c08Widths {
+				c.Expect(int64(2 + 8*z.l/n))
+			}
+		}
+		c.Par(len(zs), func(k int) {
+			z := zs[k]
+			b := make([]byte, z.l)
+			for x := range b {
+				b[x] = []byte{'a', 0x80, 0x01, 0xff, 0x7f, 'z', 0xa5}[(x+z.l)%7]
+				if x >= z.i && x < z.j {
+					b[x] = 0
+				}
+			}
+			var ev int64
+			for _, n := range c08Widths {
+				ev += c08SplitOne(c, 7<<50|int64(k)<<4|int64(n), n, string(b))
+			}
+			c.Count(ev, ev)
+		})
+		c.Set("zero_run_strings", len(zs))
 	}
 	// (pack, length sweep) ToStr on a word list of EVERY length 0..2200 (width 1), 1100, 600, 300 (widths 2, 4,
 	// 8) - results of 0..275 bytes with every partial-last-byte shape at every byte count - and of every
